@@ -9,7 +9,7 @@ def replay(doc: dict) -> int:
     kind = doc.get("kind")
     if kind == "gateway-history":
         return corecheck.replay(doc)
-    if kind in ("persist-load", "persist-roundtrip", "persist-snapshot"):
+    if kind in ("persist-load", "persist-roundtrip", "persist-snapshot", "persist-big"):
         return persist.replay(doc)
     if kind == "lifecycle-run":
         return lifecycle.replay(doc)
